@@ -69,6 +69,8 @@ type Run struct {
 	mu         sync.Mutex
 	log        []string
 	logDropped int
+	onStop     []func()
+	logSkipped int64
 	viol       *Violation
 	probes     map[string]int
 	faults     map[string]int
@@ -184,6 +186,11 @@ func (r *Run) Logf(format string, args ...interface{}) {
 	progress.Add(1) // a run without the scheduler still shows the watchdog that it is alive
 	r.mu.Lock()
 	defer r.mu.Unlock()
+	if logSkip > 0 && r.logSkipped < logSkip {
+		// debugging aid for replays: drop the first VERIF_LOG_SKIP lines instead of the last ones
+		r.logSkipped++
+		return
+	}
 	if len(r.log) >= 4000 {
 		r.logDropped++
 		return
@@ -249,7 +256,27 @@ func (r *Run) EndRun() {
 	r.mu.Lock()
 	r.ended = true
 	r.mu.Unlock()
+	r.fireOnStop()
 	panic(stopRun{})
+}
+
+// OnStop registers f to be called once, on the task that ends or fails the run,
+// right when that happens (before the orderly wind-down): the place to cancel
+// the contexts long waits of other harness tasks hang on. f must not yield.
+func (r *Run) OnStop(f func()) {
+	r.mu.Lock()
+	r.onStop = append(r.onStop, f)
+	r.mu.Unlock()
+}
+
+func (r *Run) fireOnStop() {
+	r.mu.Lock()
+	fs := r.onStop
+	r.onStop = nil
+	r.mu.Unlock()
+	for _, f := range fs {
+		f()
+	}
 }
 
 // Yield is the scheduling point of harness code (between operations). Once the
@@ -276,6 +303,7 @@ func (r *Run) Violation(class, sig, format string, args ...interface{}) {
 		r.viol = &Violation{Class: class, Sig: sig, Msg: fmt.Sprintf(format, args...)}
 	}
 	r.mu.Unlock()
+	r.fireOnStop()
 	panic(stopRun{})
 }
 
@@ -444,6 +472,7 @@ type Result struct {
 	Draws      int
 	Findings   map[string]string
 	FindingsN  map[string]int
+	StuckKnown bool // the run got stuck in a way a listed finding explains
 }
 
 // Exec executes one run of c. If sc != nil the scenario's tape and params are
@@ -569,6 +598,23 @@ func Exec(t *testing.T, c *Check, seed uint64, tier string, sc *Scenario) *Resul
 				// the blocked goroutines of this bubble can never be collected:
 				// hand the result over and leave the process
 				res.Stuck = stuck
+				// two live indexing goroutines of one index (the recorded finding
+				// C04:indexer-overlap-after-compaction) can keep each other from ever
+				// finishing: the run that cannot end is that finding, not a new one
+				const overlap = "C04:indexer-overlap-after-compaction"
+				if s.MaxSameName("indexer") > 1 && knownSigs[overlap] && r.viol == nil {
+					r.mu.Lock()
+					if r.findings == nil {
+						r.findings = map[string]string{}
+						r.findingsN = map[string]int{}
+					}
+					if _, ok := r.findings[overlap]; !ok {
+						r.findings[overlap] = "two indexing goroutines of one index were alive at the same time after CompactIndexes restarted it; the run never finishes: " + firstLine(stuck)
+					}
+					r.findingsN[overlap]++
+					r.mu.Unlock()
+					res.StuckKnown = true
+				}
 				collect()
 				for _, d := range r.dirs {
 					os.RemoveAll(d)
@@ -593,6 +639,8 @@ func Exec(t *testing.T, c *Check, seed uint64, tier string, sc *Scenario) *Resul
 	collect()
 	return res
 }
+
+var logSkip = envInt("VERIF_LOG_SKIP", 0)
 
 // curRun is the run being executed (read by the watchdog).
 var curRun atomic.Pointer[Run]
@@ -827,6 +875,17 @@ func Worker(t *testing.T, c *Check) {
 			rep.Violations = append(rep.Violations, ViolationEntry{*res.Viol, res.Seed, p})
 		} else if res.Trouble != "" {
 			rep.Troubles = append(rep.Troubles, fmt.Sprintf("seed=%d: %s", res.Seed, res.Trouble))
+		} else if res.StuckKnown {
+			for k, v := range res.Findings {
+				if rep.Findings == nil {
+					rep.Findings = map[string]string{}
+					rep.FindingsN = map[string]int{}
+				}
+				if _, ok := rep.Findings[k]; !ok {
+					rep.Findings[k] = fmt.Sprintf("seed=%d: %s", res.Seed, v)
+				}
+				rep.FindingsN[k] += res.FindingsN[k]
+			}
 		} else if c.Liveness {
 			p := writeScenario(c, res, tier, false, res.Draws)
 			rep.Violations = append(rep.Violations, ViolationEntry{Violation{Class: "stuck", Sig: "stuck:" + stuckSig(res.Stuck), Msg: res.Stuck}, res.Seed, p})
@@ -1112,4 +1171,11 @@ func (r *Run) simNow() time.Duration {
 		return 0
 	}
 	return time.Since(r.simStart)
+}
+
+func firstLine(s string) string {
+	if i := strings.IndexByte(s, '\n'); i >= 0 {
+		return s[:i]
+	}
+	return s
 }
